@@ -39,6 +39,11 @@ CHECKS = {
         note="Trusted: proxy collections registered through the public Extender (call order), timer/clock shims. A redelivery emitted before the ack returned is in flight and accepted. Below 300 stored messages.",
         technique="deterministic simulation: discrete-event ticks, lossy/late/duplicate acknowledgements, restart faults, history check against a per-message reference model",
         ref="DESIGN.md §6 C09"),
+    "C10": dict(
+        text="Seeded operation histories (create with adversarial field values, find/exists of present and absent ids, update of every field, delete, queries with AND/OR groups incl. sub-conditions that match nothing and NULL tests, numeric/text order keys, offset/limit windows) on each of the six collections and both backends, with close+reopen of the SQLite file between operations as the applicable fault; every answer (records field by field, row set, order, count/page_count/page_num/page_size) is compared with RefCollection, hence the backends with each other. The statement has no scheduling dimension and none is pretended. Sampling: evidence, not proof.",
+        note="Trusted: RefCollection (BTreeMap + direct evaluator; text order = byte order; a record without a value is `not equal` to a value). Operations the statement leaves open are not generated (duplicate create, update/delete of absent ids, range operators on text, paging without a total order). Collections are reached through hook H1 on engines built with and without the SQLite plugin.",
+        technique="deterministic simulation harness used as a seeded history generator against a reference collection, with close/reopen faults",
+        ref="DESIGN.md §6 C10"),
     "C15": dict(
         text="Seeded search over parent/child(/grandchild) models, child endings (completed, error, aborted, missing model) and interleavings of the child's return with other parent activity: the calling act is open at every quiescent point before the child's terminal event, closed exactly once afterwards with the prescribed state/data/error, the child's inputs equal the call's options, the successor starts once and only after the call is closed, the parent's terminal event is generated after the child's. Sampling: evidence, not proof.",
         note="Trusted: H1 live dumps at quiescent points, id shim for event generation order. Child ending `skipped` is not reachable through client actions and is not generated.",
